@@ -164,8 +164,23 @@ def model_schedules(tier, rep, keep="1", guard="1"):
     return out
 
 
+def tlaps_nocrash(rep):
+    """unbounded counterpart of MC_Feed's NoCrash: the TLA+ proof system checks Feed_proofs.tla (NoCrashAlways)"""
+    import subprocess
+    r = subprocess.run(["timeout", "900", "tlapm", "--threads", "4", "--cleanfp", "Feed_proofs.tla"], cwd=core.SPEC,
+                       stdout=subprocess.PIPE, stderr=subprocess.STDOUT, text=True)
+    m = re.search(r"All (\d+) obligations proved", r.stdout)
+    subprocess.run(["rm", "-rf", os.path.join(core.SPEC, ".tlacache")])
+    if not m:
+        raise core.ToolError("tlapm did not prove Feed_proofs.tla: " + r.stdout[-600:])
+    rep.extra["tlaps"] = {"module": "Feed_proofs", "theorem": "NoCrashAlways (GuardShort => Spec => []NoCrash, any stream, any schedule)",
+                          "obligations": int(m.group(1)), "proved": int(m.group(1))}
+
+
 def run(prop, tier, seed, rep):
     rng = random.Random(seed * 1000003 + 16)
+    if tier == "thorough":
+        tlaps_nocrash(rep)
     bindir = core.build_apps()
     scheds = model_schedules(tier, rep)
     jobs = []
